@@ -927,12 +927,19 @@ impl<'a, 'b> Gen<'a, 'b> {
                 }
             }
             _ => {
-                if self.src.bool() {
-                    let eq_tys: Vec<Ty> = (0..self.sig.sorts.len()).map(Ty::Eq).collect();
-                    let ty = self.src.pick(&eq_tys).clone();
-                    Cmd::Extract(self.ground(&ty), None)
-                } else {
-                    Cmd::PrintSize(None)
+                let eq_tys: Vec<Ty> = (0..self.sig.sorts.len()).map(Ty::Eq).collect();
+                match self.src.below(6) {
+                    0 | 1 => {
+                        let ty = self.src.pick(&eq_tys).clone();
+                        Cmd::Extract(self.ground(&ty), None)
+                    }
+                    2 => {
+                        let ty = self.src.pick(&eq_tys).clone();
+                        Cmd::Extract(self.ground(&ty), Some(1 + self.src.below(4)))
+                    }
+                    3 => Cmd::PrintSize(None),
+                    4 => Cmd::PrintSize(Some(self.src.below(self.sig.funcs.len()))),
+                    _ => Cmd::PrintFunction(self.src.below(self.sig.funcs.len()), 1 + self.src.below(20)),
                 }
             }
         }
